@@ -262,10 +262,11 @@ Record sess := mkSess {
   s_conns : list vconn;      (* every agentConnection created so far; index = accept order *)
   s_reg : list nat;          (* Connections.conns: indices, in Add order *)
   s_alive : bool;            (* serv loop still running *)
-  s_nudp : nat               (* UDP pseudo-connections surfaced so far *)
+  s_udp : list (addr * addr) (* the datagram pseudo-connections surfaced so far, in accept order: what the
+                                Fn closure of each one has captured (v.Laddr, v.Raddr of ITS message) *)
 }.
 
-Definition sess0 : sess := mkSess [] [] true 0.
+Definition sess0 : sess := mkSess [] [] true [].
 
 Definition dummy_vc : vconn := mkVc ANil ANil [] true.
 Definition conn_at (s : sess) (i : nat) : vconn := nth i (s_conns s) dummy_vc.
@@ -307,7 +308,7 @@ Definition close_vc (c : vconn) : vconn := mkVc (vc_l c) (vc_r c) (vc_buf c) tru
    then every registered connection is closed *)
 Definition teardown (s : sess) : sess :=
   mkSess (fold_left (fun cs i => upd cs i (close_vc (nth i cs dummy_vc))) (s_reg s) (s_conns s))
-         (s_reg s) false (s_nudp s).
+         (s_reg s) false (s_udp s).
 
 Inductive res :=
 | RNone
@@ -326,7 +327,7 @@ Definition serv_msg (s : sess) (m : msg) : sess * res * list msg * option nat :=
   if negb (s_alive s) then (s, RNone, [], None)
   else match m with
   | MHello l r =>
-      (mkSess (s_conns s ++ [mkVc l r [] false]) (s_reg s ++ [length (s_conns s)]) true (s_nudp s),
+      (mkSess (s_conns s ++ [mkVc l r [] false]) (s_reg s ++ [length (s_conns s)]) true (s_udp s),
        RAcc l r, [], None)
   | MData l r p =>
       match get_conn (s_conns s) (s_reg s) l r with
@@ -336,11 +337,11 @@ Definition serv_msg (s : sess) (m : msg) : sess * res * list msg * option nat :=
         let c := conn_at s i in
         if vc_closed c then (s, RNone, [], None)
         else (mkSess (upd (s_conns s) i (mkVc (vc_l c) (vc_r c) (vc_buf c ++ p) false))
-                     (s_reg s) true (s_nudp s), RNone, [], Some i)
+                     (s_reg s) true (s_udp s), RNone, [], Some i)
       end
   | MUdp l r p =>
       if is_udp l && is_udp r
-      then (mkSess (s_conns s) (s_reg s) true (S (s_nudp s)), RUdpAcc l r p, [], None)
+      then (mkSess (s_conns s) (s_reg s) true (s_udp s ++ [(l, r)]), RUdpAcc l r p, [], None)
       else (teardown s, RPanic, [], None)            (* failed type assertion *)
   | MEof l r =>
       match get_conn (s_conns s) (s_reg s) l r with
@@ -348,7 +349,7 @@ Definition serv_msg (s : sess) (m : msg) : sess * res * list msg * option nat :=
       | GNone => (s, RNone, [], None)
       | GFound i =>
         let c := conn_at s i in
-        (mkSess (upd (s_conns s) i (close_vc c)) (remove_first i (s_reg s)) true (s_nudp s),
+        (mkSess (upd (s_conns s) i (close_vc c)) (remove_first i (s_reg s)) true (s_udp s),
          RNone, (if vc_closed c then [] else [MEof (vc_l c) (vc_r c)]), None)
       end
   | MPing => (s, RNone, [], None)
@@ -364,7 +365,7 @@ Definition vc_read (s : sess) (c : nat) (n : Z) : sess * res :=
   match vc_buf v with
   | _ :: _ =>
     (mkSess (upd (s_conns s) c (mkVc (vc_l v) (vc_r v) (zskipn n (vc_buf v)) (vc_closed v)))
-            (s_reg s) (s_alive s) (s_nudp s),
+            (s_reg s) (s_alive s) (s_udp s),
      RData (zfirstn n (vc_buf v)))
   | [] => (s, if vc_closed v then REof else RTimeout)
   end.
@@ -390,7 +391,8 @@ Inductive act :=
 | APark (c : nat) (n : Z) (m : msg)     (* Read(n) is waiting on c when the agent sends m *)
 | AWrite (c : nat) (p q : bytes)        (* service writes p on connection c from a buffer it refills with q right after *)
 | AClose (c : nat)                      (* service closes connection c *)
-| AUdpW (l r : addr) (p q : bytes)      (* service answers p on a datagram pseudo-connection, then refills the buffer with q *)
+| AUdpR (i : nat) (p q : bytes)         (* service answers p on the i-th datagram pseudo-connection (accept order), whenever
+                                           it likes, then refills the buffer with q *)
 | ADisc.                                (* the agent disconnects *)
 
 Section Run.
@@ -432,10 +434,16 @@ Definition step (s : sess) (a : act) : sess * res * list msg :=
   | AClose c =>
       let v := conn_at s c in
       if vc_closed v then (s, RNone, [])
-      else (mkSess (upd (s_conns s) c (close_vc v)) (s_reg s) (s_alive s) (s_nudp s), RNone,
+      else (mkSess (upd (s_conns s) c (close_vc v)) (s_reg s) (s_alive s) (s_udp s), RNone,
             if s_alive s then wire_out (MEof (vc_l v) (vc_r v)) else [])
-  | AUdpW l r p q =>
-      if s_alive s then (s, RNone, wire_out (MUdp l r (write_then_refill p q))) else (s, RPanic, [])
+  | AUdpR i p q =>
+      (* DummyUDPConn.Write -> the Fn closure created for THAT datagram: the reply carries the
+         addresses of the message the closure was created for, whatever has arrived since *)
+      match nth_error (s_udp s) i with
+      | Some (l, r) =>
+        if s_alive s then (s, RNone, wire_out (MUdp l r (write_then_refill p q))) else (s, RPanic, [])
+      | None => (s, RNone, [])                       (* no such datagram: nothing to write on *)
+      end
   | ADisc => ((if s_alive s then teardown s else s), RNone, [])
   end.
 
@@ -535,6 +543,52 @@ Fixpoint written (heap : list bytes) (evs : list oev) : list msg :=
   | OUdpW l r i :: rest => MUdp l r (nth i heap []) :: written heap rest
   | OFill i q :: rest => written (upd heap i q) rest
   | OSend :: rest => written heap rest
+  end.
+
+(* ------------------------------------------------------------------ *)
+(* Relayed datagrams.  A datagram is (local, remote, payload); the agent relays a list of
+   them, the services answer according to a SCHEDULE: a list of (which datagram, bytes,
+   what the buffer is refilled with) in any order, any datagram any number of times. *)
+Definition dgram : Type := (addr * addr * bytes)%type.
+Definition dg_pair (d : dgram) : addr * addr := (fst (fst d), snd (fst d)).
+Definition dg_msg (d : dgram) : msg := MUdp (fst (fst d)) (snd (fst d)) (snd d).
+Definition dg_udp (d : dgram) : bool := is_udp (fst (fst d)) && is_udp (snd (fst d)).
+Definition relay_acts (ds : list dgram) : list act := map (fun d => ASend (dg_msg d)) ds.
+Definition relay_res (ds : list dgram) : list res := map (fun d => RUdpAcc (fst (fst d)) (snd (fst d)) (snd d)) ds.
+
+Definition answer : Type := (nat * bytes * bytes)%type.
+Definition answer_acts (sch : list answer) : list act := map (fun x => AUdpR (fst (fst x)) (snd (fst x)) (snd x)) sch.
+(* the frames the schedule must produce when the pseudo-connections hold the pairs [us]:
+   in schedule order, (pair of datagram i, answer bytes) *)
+Definition answer_frames (us : list (addr * addr)) (sch : list answer) : list msg :=
+  flat_map (fun x => match nth_error us (fst (fst x)) with
+                     | Some (l, r) => [MUdp l r (snd (fst x))]
+                     | None => []
+                     end) sch.
+(* NOT the model: all answer functions of a session reading ONE variable that holds the
+   datagram received last (what a closure over a per-session variable does) *)
+Definition answer_frames_shared (us : list (addr * addr)) (sch : list answer) : list msg :=
+  flat_map (fun x => match nth_error us (fst (fst x)), us with
+                     | Some _, _ :: _ => let '(l, r) := last us (ANil, ANil) in [MUdp l r (snd (fst x))]
+                     | _, _ => []
+                     end) sch.
+
+Definition set_udp (s : sess) (u : list (addr * addr)) : sess := mkSess (s_conns s) (s_reg s) (s_alive s) u.
+
+(* the actions that belong to the datagram relay: a ReadWriteUDP message with UDP
+   addresses, and an answer on a datagram pseudo-connection *)
+Definition is_relay_act (a : act) : bool :=
+  match a with
+  | ASend (MUdp l r _) => is_udp l && is_udp r
+  | AUdpR _ _ _ => true
+  | _ => false
+  end.
+Definition is_udp_msg (m : msg) : bool := match m with MUdp _ _ _ => true | _ => false end.
+(* the results of the other actions *)
+Fixpoint other_res (acts : list act) (rs : list res) : list res :=
+  match acts, rs with
+  | a :: acts', r :: rs' => if is_relay_act a then other_res acts' rs' else r :: other_res acts' rs'
+  | _, _ => []
   end.
 
 (* ------------------------------------------------------------------ *)
